@@ -14,7 +14,10 @@ Record rbug := mkrbug {
 Inductive eobs := EParseErr | EQueryErr | EIds (l : list N).
 (* e_obs2: a second evaluation of the same parsed query (the answer must not depend on the call) *)
 Record equery := mkeq { e_items : list item; e_str : str; e_obs : eobs; e_obs2 : eobs }.
-Record case := mkecase { e_idents : list ident; e_bugs : list rbug; e_queries : list equery }.
+(* e_stab: excerpt values are immutable. For a few label changes on live bugs: the labels of the excerpt obtained
+   BEFORE the change (the value a concurrent Query is matching against), read before and read again after it *)
+Record case := mkecase { e_idents : list ident; e_bugs : list rbug; e_queries : list equery;
+                         e_stab : list (list str * list str) }.
 
 Definition no_ident := mkident [] [] [].
 Definition resolve (ids : list ident) (r : rbug) : bug :=
@@ -96,7 +99,10 @@ Definition ok_q (bugs : list bug) (e : equery) : bool :=
     let q := denote (e_items e) in result_ok bugs q (e_obs e) && result_ok bugs q (e_obs2 e)
   else true.
 
-Definition C12_ok (c : case) : bool := let bugs := population c in forallb (ok_q bugs) (e_queries c).
+Definition stable (p : list str * list str) : bool := list_eqb str_eqb (fst p) (snd p).
+
+Definition C12_ok (c : case) : bool :=
+  let bugs := population c in forallb (ok_q bugs) (e_queries c) && forallb stable (e_stab c).
 
 Fixpoint index_filter {A} (f : A -> bool) (i : nat) (l : list A) : list nat :=
   match l with [] => [] | x :: t => if f x then index_filter f (S i) t else i :: index_filter f (S i) t end.
